@@ -44,9 +44,9 @@ def _generic_ranks(n, rho):
     return [min(a, b) for a, b in zip(rl[1:], rr[:-1])]       # bonds 1..d-1
 
 
-def _setup(n, rho, m, tseed, sseed):
+def _setup(n, rho, m, tseed, sseed, scale=1.0):
     Yt = gen.tt(n, rho, tseed, 'gauss')
-    T = gen.dense(Yt)
+    T = gen.dense(Yt) * scale
     I, idx, idx_many = teneva.sample_tt(n, m, seed=sseed)
     I = np.asarray(I, dtype=int)
     y = T[tuple(I.T)]
@@ -159,9 +159,10 @@ def wellformed(n, rho, m, cap, tseed, sseed):
 
 
 @clause('C20.svd_incomplete.recover', funcs=FUNCS + ('act_one.get',))
-def recover(n, rho, m, cap, tseed, sseed):
-    """dense(result) equals the sampled rank-rho tensor up to rounding (relative 1e-6, conditioning rejection)."""
-    T, I, idx, idx_many, y = _setup(n, rho, m, tseed, sseed)
+def recover(n, rho, m, cap, tseed, sseed, scale=1.0):
+    """dense(result) equals the sampled rank-rho tensor up to rounding (relative 1e-6, conditioning rejection); also for
+    tensors of small / large overall scale (all retained singular values stay far above the absolute threshold 1e-10)."""
+    T, I, idx, idx_many, y = _setup(n, rho, m, tseed, sseed, scale)
     bad = _well_conditioned(T, n, rho, I, idx, idx_many)
     if bad:
         return SKIP(bad)
@@ -210,6 +211,9 @@ def cases(tier, seed):
         yield 'C20.svd_incomplete.no_exception', p
         yield 'C20.svd_incomplete.wellformed', p
         yield 'C20.svd_incomplete.recover', p
+        if k % 3 == 0 or big:
+            for scale in (1e-5, 1e4):
+                yield 'C20.svd_incomplete.recover', dict(p, scale=scale)
         # "ranks <= the cap" is not conditional on cap >= rho: binding caps for the structural clause only
         low = list(range(1, p['rho']))
         for cap in (low if big else low[k % 2:][:1]):
